@@ -10,10 +10,12 @@ package verifsync
 
 import (
 	"fmt"
+	"os"
 	"reflect"
 	"sort"
 	"strings"
 	"sync"
+	"time"
 	"unsafe"
 )
 
@@ -148,7 +150,10 @@ func (m *Map) LoadAndDelete(key interface{}) (interface{}, bool) {
 func (m *Map) Delete(key interface{}) { m.pt("Delete"); m.m.Delete(key) }
 
 // Swap is a scheduling point.
-func (m *Map) Swap(key, value interface{}) (interface{}, bool) { m.pt("Swap"); return m.m.Swap(key, value) }
+func (m *Map) Swap(key, value interface{}) (interface{}, bool) {
+	m.pt("Swap")
+	return m.m.Swap(key, value)
+}
 
 // CompareAndSwap is a scheduling point.
 func (m *Map) CompareAndSwap(key, old, new interface{}) bool {
@@ -301,6 +306,16 @@ func Access(name string, write bool) {
 		}
 		rt.point(op{kind: opAccess, name: name, write: write})
 	}
+}
+
+// StuckAfter bounds the wall time a resumed thread may take to reach its next
+// scheduling point; StuckHandler is called when it is exceeded.
+var StuckAfter = 120 * time.Second
+
+// StuckHandler reports a stuck execution; the default prints and exits with status 3.
+var StuckHandler = func(msg string) {
+	fmt.Println("SCHEDULER-STUCK: " + msg)
+	os.Exit(3)
 }
 
 // knownWritten is the set of probe names (without object identity) that some
@@ -516,19 +531,19 @@ type Execution struct {
 }
 
 type runtime struct {
-	threads   []*thread
-	cur       *thread
-	last      *thread
-	yield     chan struct{}
-	locks     map[interface{}]*lockState
-	lockOrder []interface{}
+	threads     []*thread
+	cur         *thread
+	last        *thread
+	yield       chan struct{}
+	locks       map[interface{}]*lockState
+	lockOrder   []interface{}
 	writtenHere map[string]bool
-	objs      map[uintptr]*objInfo
-	keep      []interface{}
-	vars      map[string]*varState
-	prefix    []int
-	x         *Execution
-	nsteps    int
+	objs        map[uintptr]*objInfo
+	keep        []interface{}
+	vars        map[string]*varState
+	prefix      []int
+	x           *Execution
+	nsteps      int
 }
 
 var active *runtime
@@ -792,7 +807,16 @@ func run(threads []Thread, prefix []int, horizon int) *Execution {
 			break
 		}
 		t.resume <- struct{}{}
-		<-rt.yield
+		select {
+		case <-rt.yield:
+		case <-time.After(StuckAfter):
+			// the thread that was resumed has not reached a scheduling point: it blocks on a
+			// primitive the shim does not model (a channel, a condition variable) or it loops.
+			// Its goroutine cannot be unwound; the caller decides (StuckHandler) - by default the
+			// process reports it and exits, so that a check never hangs.
+			StuckHandler(fmt.Sprintf("thread %s did not reach a scheduling point within %v after %q (blocked on a primitive the scheduler does not model, or looping); trace so far: %v", rt.cur.name, StuckAfter, rt.cur.pending.String(), rt.x.Trace))
+			select {} // not reached with the default handler
+		}
 		rt.cur = nil
 		if rt.x.LockError != "" {
 			break
